@@ -44,7 +44,7 @@ func (c *collector) addPart(partIndex int, data []byte) error {
 	} else {
 		offset = len(data) * partIndex
 	}
-	if offset >= len(c.buf) {
+	if offset < 0 || offset >= len(c.buf) {
 		return errors.Errorf("invalid offset len=%d for buf of len=%d", offset, len(c.buf))
 	}
 	copy(c.buf[offset:], data)
